@@ -77,7 +77,8 @@ def _build_grid(spec, loc=None):
                               order=spec["order"], axes_reversed=spec["rev"], axes_increase=list(spec["inc"])[:d],
                               crs=spec.get("crs"))
     if k == "rect":
-        axes = [np.array(a if inc else a[::-1], dtype=float) for a, inc in zip(spec["axes"], spec["inc"])]
+        # "dtype": the axes as the caller hands them over (e.g. float32 arrays read from a raster file)
+        axes = [np.array(a if inc else a[::-1], dtype=spec.get("dtype", float)) for a, inc in zip(spec["axes"], spec["inc"])]
         return fm.RectilinearGrid(axes, data_location=location, order=spec["order"], axes_reversed=spec["rev"],
                                   crs=spec.get("crs"))
     raise ValueError(k)
